@@ -168,6 +168,9 @@ def rule_G_FORMS(ctx, repo):
         ('NULL marker substituted in the positional part', any(L.startswith('G:') for L in pa_v), 'ignored positionals are not replaced by a module-level marker object'),
         ('NULL marker substituted in the keyword part', any(L.startswith('G:') for L in kw_v), 'ignored keywords are not replaced by a module-level marker object'),
     ]
+    ctx.sample({'construct': fi.qual, 'test features reaching the positional part': sorted(L for L in pa_d if L.startswith('TEST:')),
+                'test features reaching the keyword part': sorted(L for L in kw_d if L.startswith('TEST:')),
+                'value sources of the positional part': sorted(pa_v), 'value sources of the keyword part': sorted(kw_v)})
     for what, ok, msg in checks:
         ctx.ob('G-FORMS', what, ok)
         if not ok:
@@ -254,8 +257,32 @@ def rule_V(ctx, repo):
                      'validate/signature call the function under inspection (%s): validity must be decided from the signature alone, without running user code' % unparse(s.node)[:60],
                      '%s:%d' % (m.rel, s.lineno))
     ctx.ob('V-NOCALL', 'calls examined in validate + signature', True, n=max(1, len([s for s in eng.sites if s.kind == 'call'])))
+    # ---- V-SELF: whether a bound method's first parameter is dropped is decided by `__self__ is (not) None`, never by the truthiness of the
+    # instance (an instance of a list / dict subclass is falsy when empty, and truthiness runs the user's __bool__ / __len__)
+    sig = m.functions['signature']
+    n_self = 0
+    for node in ast.walk(sig.node):
+        tests = []
+        if isinstance(node, (ast.If, ast.IfExp, ast.While)):
+            tests.append(node.test)
+        elif isinstance(node, ast.BoolOp):
+            tests.extend(node.values)
+        elif isinstance(node, ast.UnaryOp) and isinstance(node.op, ast.Not):
+            tests.append(node.operand)
+        for t in tests:
+            if isinstance(t, ast.Attribute) and t.attr == '__self__':
+                n_self += 1
+                ctx.ob('V-SELF', None, False)
+                ctx.fail('V-SELF', sig.qual, 'truthiness of __self__',
+                         'signature() tests the truthiness of %s to decide whether the callable is a bound method: a bound method of an instance that is falsy '
+                         '(an empty list / dict subclass, __bool__ returning False) keeps its self parameter, so isvalid() rejects valid calls and keys are built '
+                         'with a spurious argument' % unparse(t), '%s:%d' % (m.rel, t.lineno))
+    ctx.ob('V-SELF', 'signature() does not branch on the truthiness of __self__', True)
     # ---- V-FIELDS: the verdict depends on every part of the signature the interpreter's binder consults, and on the call
     d = _spec_deps(eng, raises + rets)
+    ctx.sample({'construct': fi.qual, 'raise sites (line, exception, signature fields in the guard)': [
+        (s_.lineno, s_.exc, sorted(L for L in s_.ctx if L.startswith('SPEC.'))) for s_ in raises][:12],
+        'argspec fields the accept/reject decisions depend on': sorted(L for L in d if L.startswith('SPEC.'))})
     need = [('SPEC.' + f, 'the %s of the function' % f) for f in SPEC_FIELDS] + [
         (r['func'] + '.args', "a partial's fixed positionals"), (r['func'] + '.keywords', "a partial's fixed keywords"),
         (r['args'], 'the positional arguments of the call'), (r['kwds'], 'the keyword arguments of the call')]
